@@ -104,7 +104,12 @@ def check_project(ctx, fi):
     # attrs may only be normalised list -> tuple
     for s in walk_shallow(fi.node):
         if isinstance(s, ast.Assign) and any(U(t) == attrs for t in s.targets):
-            ctx.ob('requested-order', fi, s, U(s.value) in ('tuple(%s)' % attrs, 'list(%s)' % attrs),
+            wrapped_name = U(s.value).replace(' ', '') in ('(%s,)' % attrs, '[%s]' % attrs)          # one bare attribute name as a one-element request
+            if wrapped_name:
+                par_ = getattr(s, '_parent', None)
+                wrapped_name = isinstance(par_, ast.If) and s in par_.body and U(par_.test).replace(' ', '') in (
+                    'type(%s)isstr' % attrs, 'isinstance(%s,str)' % attrs, 'type(%s)==str' % attrs)
+            ctx.ob('requested-order', fi, s, U(s.value) in ('tuple(%s)' % attrs, 'list(%s)' % attrs) or wrapped_name,
                    'the requested tuple may be re-wrapped but not reordered: `%s`' % U(s))
     # uncached path: eliminate exactly the attributes not requested, from the model's own potentials and total
     ve = [c for c in calls_in(fi.node) if U(c.func) == 'variable_elimination_logspace']
